@@ -94,12 +94,13 @@ def _facts_from_test(e, pol: bool) -> typing.Set[str]:
 class NullSources:
   """Configuration: which expressions produce None."""
 
-  def __init__(self, call_names=(), regex_methods=False, iter_funcs=(), fields=(), getter_paths=()):
+  def __init__(self, call_names=(), regex_methods=False, iter_funcs=(), fields=(), getter_paths=(), attr_suffixes=()):
     self.call_names = set(call_names)          # x = recv.<name>(...)  -> x nullable
     self.regex_methods = regex_methods          # x = <REGEX>.match/fullmatch/search(...) -> nullable
     self.iter_funcs = set(iter_funcs)           # for x in <f>(...) -> x nullable
     self.fields = set(fields)                   # self.<field> nullable (path 'self.<field>')
     self.getter_paths = set(getter_paths)       # '<recv>.get_body()' used directly as a path
+    self.attr_suffixes = dict(attr_suffixes) if isinstance(attr_suffixes, dict) else {x: "optional field" for x in attr_suffixes}   # '<anything>.<name>' nullable
 
   def is_nullable_expr(self, e) -> typing.Optional[str]:
     if isinstance(e, ast.Call) and isinstance(e.func, ast.Attribute):
@@ -186,7 +187,7 @@ def check_sources(ctx, funcs: typing.Iterable[FuncInfo], src: NullSources, rule=
     field_paths = {f"self.{x}": f"field {x} is None outside its active phase" for x in src.fields}
     text = unparse(f.node)
     uses_getter = any(g.split(".")[-1] in text for g in src.getter_paths)
-    uses_field = any(("self." + x) in text for x in src.fields)
+    uses_field = any(("self." + x) in text for x in src.fields) or any(("." + x) in text for x in src.attr_suffixes)
     if not locals_ and not uses_getter and not uses_field:
       continue
     ctx.unit(f.module)
@@ -200,6 +201,9 @@ def check_sources(ctx, funcs: typing.Iterable[FuncInfo], src: NullSources, rule=
       for g in src.getter_paths:
         if p.endswith("." + g) or p == g:
           return f"{g} may return None"
+      last = p.rsplit(".", 1)[-1]
+      if "." in p and last in src.attr_suffixes:
+        return src.attr_suffixes[last]
       return None
 
     def kill(st: set, target_path: str):
